@@ -614,4 +614,42 @@ def notifiesAt (path : List Nat) : CVal → Option Nat
   | .node _ _ (.bound o _) _ _ => if path.isEmpty then some o else none
   | _ => none
 
+/-! ## Initialisation phase
+
+`clone_traits` and `__setstate__` build the new object by a fixed sequence of
+method calls (translated: `Generated.CopyChains.cloneTraitsCalls`,
+`setstateCalls`); the values are put back by `copy_traits` / `trait_set`, and
+`_trait_set_inited` marks the object as initialised.  A trait whose validator
+looks at `object.traits_inited()` (`UUID(can_init=True)`, write-once traits)
+sees the phase in which its value is put back; a rejection is swallowed by
+`copy_traits` (the copy then computes a default of its own). -/
+
+inductive SetupStep where
+  | restore | setInited | other
+deriving DecidableEq, Repr
+
+def SetupStep.ofCall : String → SetupStep
+  | "copy_traits" => .restore
+  | "trait_set" => .restore
+  | "_trait_set_inited" => .setInited
+  | _ => .other
+
+/-- `value = none`: nothing was stored - the copy will compute its own default. -/
+structure Setup where
+  inited : Bool
+  value : Option Nat
+deriving DecidableEq, Repr
+
+/-- `accepts inited`: does the validator accept an assignment in that phase? -/
+def setupStep (accepts : Bool → Bool) (v : Nat) (s : Setup) : SetupStep → Setup
+  | .restore => if accepts s.inited then { s with value := some v } else s
+  | .setInited => { s with inited := true }
+  | .other => s
+
+def runSetup (accepts : Bool → Bool) (v : Nat) (calls : List String) : Setup :=
+  (calls.map SetupStep.ofCall).foldl (setupStep accepts v) { inited := false, value := none }
+
+/-- `UUID(can_init=True)` and the like: assignable only while the object is being set up. -/
+def initOnly (inited : Bool) : Bool := !inited
+
 end TraitsVerif.Model.Persist
